@@ -352,55 +352,91 @@ func c10GrpcTable(c *Ctx) {
 			codeCall = cl
 		}
 	})
+	// the one-call spelling status.Code(err) (the same value, for a nil error as well: codes.OK)
+	direct := false
+	if codeCall == nil {
+		EachInstr(fn, func(in ssa.Instruction) {
+			if cl, ok := in.(*ssa.Call); ok && MatchCC(&cl.Call, Spec{"google.golang.org/grpc/status", "", "Code"}) {
+				codeCall, direct = cl, true
+			}
+		})
+	}
 	if codeCall == nil {
 		c.Anchor("O10.2", "status.Convert(err).Code() in ConvertGrpcStatus")
 		return
 	}
-	okSrc := false
+	okSrc := direct && len(fn.Params) == 1 && codeCall.Call.Args[0] == ssa.Value(fn.Params[0])
 	if conv, _ := CallOfValue(codeCall.Call.Args[0]); conv != nil && MatchCC(&conv.Call, Spec{"google.golang.org/grpc/status", "", "Convert"}) && len(fn.Params) == 1 && conv.Call.Args[0] == ssa.Value(fn.Params[0]) {
 		okSrc = true
 	}
 	c.Check(okSrc, "O10.2", key+":switches-on-the-status-of-its-argument", codeCall.Pos(), "the code switched on must be status.Convert(err).Code() of the function's argument")
 	// evaluate every return: facts code == k (case) or all != (default)
+	// evaluate the function for a given code: follow the branches that compare the code with constants (any arrangement
+	// of switch cases, grouped cases, if chains) down to the constant that is returned
+	evalFor := func(k int64) (int64, bool) {
+		b := fn.Blocks[0]
+		for steps := 0; steps < 4*len(fn.Blocks)+8; steps++ {
+			switch last := b.Instrs[len(b.Instrs)-1].(type) {
+			case *ssa.Return:
+				if len(last.Results) != 1 {
+					return 0, false
+				}
+				v := last.Results[0]
+				if phi, ok := v.(*ssa.Phi); ok {
+					_ = phi
+					return 0, false
+				}
+				return ConstInt(v)
+			case *ssa.Jump:
+				b = b.Succs[0]
+			case *ssa.If:
+				subj, pol := BoolSubject(last.Cond)
+				bo, ok := subj.(*ssa.BinOp)
+				if !ok || (bo.Op != token.EQL && bo.Op != token.NEQ) {
+					return 0, false
+				}
+				var kv ssa.Value
+				if Strip(bo.X) == ssa.Value(codeCall) {
+					kv = bo.Y
+				} else if Strip(bo.Y) == ssa.Value(codeCall) {
+					kv = bo.X
+				} else {
+					return 0, false
+				}
+				c2, isC := ConstInt(kv)
+				if !isC {
+					return 0, false
+				}
+				truth := (c2 == k) == (bo.Op == token.EQL)
+				if truth == pol {
+					b = b.Succs[0]
+				} else {
+					b = b.Succs[1]
+				}
+			default:
+				return 0, false
+			}
+		}
+		return 0, false
+	}
 	got := map[int64]int64{}
-	var def int64 = -1
+	def, okDef := evalFor(1 << 40) // a value no case names
 	nDefault := 0
+	if okDef {
+		nDefault = 1
+	} else {
+		def = -1
+	}
+	nonConst := false
 	for _, b := range fn.Blocks {
-		r, ok := b.Instrs[len(b.Instrs)-1].(*ssa.Return)
-		if !ok || len(r.Results) != 1 {
-			continue
-		}
-		val, isK := ConstInt(r.Results[0])
-		if !isK {
-			c.Bad("O10.2", key+":constant-results", r.Pos(), "ConvertGrpcStatus must return table constants")
-			continue
-		}
-		eq := []int64{}
-		for _, f := range CmpFactsAt(r) {
-			if f.Op != token.EQL {
-				continue
+		if r, ok := b.Instrs[len(b.Instrs)-1].(*ssa.Return); ok && len(r.Results) == 1 {
+			if _, isK := ConstInt(r.Results[0]); !isK {
+				nonConst = true
+				c.Bad("O10.2", key+":constant-results", r.Pos(), "ConvertGrpcStatus must return table constants")
 			}
-			var kv ssa.Value
-			if f.X == ssa.Value(codeCall) {
-				kv = f.Y
-			} else if f.Y == ssa.Value(codeCall) {
-				kv = f.X
-			} else {
-				continue
-			}
-			if k, ok := ConstInt(kv); ok {
-				eq = append(eq, k)
-			}
-		}
-		if len(eq) == 0 {
-			def = val
-			nDefault++
-			continue
-		}
-		for _, k := range eq {
-			got[k] = val
 		}
 	}
+	_ = nonConst
 	// every grpc code constant
 	codesPkg := P.ByPkg["google.golang.org/grpc/codes"]
 	if codesPkg == nil {
@@ -420,6 +456,13 @@ func c10GrpcTable(c *Ctx) {
 	}
 	sort.Slice(all, func(i, j int) bool { return all[i] < all[j] })
 	c.Floor("O10.2", "constants of codes.Code", len(all), 17)
+	for _, k := range all {
+		if v, ok := evalFor(k); ok {
+			got[k] = v
+		} else {
+			c.Unknown("O10.2", fmt.Sprintf("%s:code-%d-evaluates", key, k), fn.Pos(), "cannot follow the branches of ConvertGrpcStatus for this code (a condition that is not a comparison of the code with a constant)")
+		}
+	}
 	c.Check(nDefault == 1 && def == unknown, "O10.2", key+":default-is-the-documented-unknown", fn.Pos(), fmt.Sprintf("default returns %d, documented 'unknown' -> %d", def, unknown))
 	for _, k := range all {
 		w, documented := want[k]
